@@ -817,3 +817,65 @@ class C18(FMonitor):
 
 
 FMONITORS.update({"C17": [C17], "C18": [C18], "C19": [], "C20": []})
+
+
+# ------------------------------------------------------------------------------------------- C01 / C06 in whole factories
+class C01F(FMonitor):
+    prop = "C01"
+
+    def on_step(self, led):
+        for eid, e in led.edges.items():
+            held = led.held(e)
+            g = len(led.live_tokens(e, "p", "granted"))
+            if held + g > e.capacity:
+                led.V("C01", "held+granted<=capacity", "edge %s holds %d item(s) and has %d granted unused space reservation(s), capacity %d (t=%s)"
+                      % (eid, held, g, e.capacity, led.env.now), edge=tname(e), factory=True)
+                return
+            real = len(container(e))
+            if real > e.capacity:
+                led.V("C01", "occupancy<=capacity", "edge %s contains %d items, capacity %d" % (eid, real, e.capacity), edge=tname(e), factory=True)
+                return
+
+
+class C06F(FMonitor):
+    """per FIFO edge: items leave in the order in which they became available (nodes use a granted reservation at once)"""
+    prop = "C06"
+
+    def __init__(self, led):
+        self.t_ready = {}
+        self.seq = {}
+        self.n = 0
+        self.gets_seen = 0
+        self.puts_seen = 0
+        self.on_edge = collections.defaultdict(list)
+
+    def on_step(self, led):
+        ev = led.events
+        # replay new put / get events in order, sampling readiness after each kernel step
+        for (t, kind, eid, nid, iid, x) in ev[self.puts_seen:]:
+            if kind == "put":
+                self.n += 1
+                self.seq[iid] = self.n
+                self.on_edge[eid].append(iid)
+            elif kind == "get":
+                e = led.edges[eid]
+                if getattr(e, "mode", "FIFO") == "FIFO" and iid in self.on_edge[eid]:
+                    mine = (self.t_ready.get(iid, t), self.seq.get(iid, 0))
+                    for other in self.on_edge[eid]:
+                        if other == iid or other not in self.t_ready:
+                            continue
+                        if self.t_ready[other] < mine[0] - EPS:
+                            led.V("C06", "fifo-per-edge", "%s handed out %s (available since %s) while %s has been available since %s"
+                                  % (eid, iid, mine[0], other, self.t_ready[other]), edge=tname(e), factory=True)
+                            break
+                if iid in self.on_edge[eid]:
+                    self.on_edge[eid].remove(iid)
+                self.t_ready.pop(iid, None)
+        self.puts_seen = len(ev)
+        for eid, e in led.edges.items():
+            for it in ready(e):
+                self.t_ready.setdefault(it.id, led.env.now)
+
+
+FMONITORS["C01"] = [C01F]
+FMONITORS["C06"] = [C06F]
